@@ -262,7 +262,9 @@ def _atom_case(session, t, atom):
     }[atom[0]]
     case = {"kind": "model-violation", "atom": atom, "session": sess, "msg": f"{atom}: {what}; session {sess}"}
     if atom[0] == "deadlock":
-        case["tail"] = t["events"][-2:]
+        ev = t["events"]
+        last = max((i for i, e in enumerate(ev) if e == "> ALIVE"), default=max(0, len(ev) - 2))
+        case["tail"] = ev[last:]  # from the last alive probe to the point where both sides stop
     return case
 
 
@@ -466,13 +468,14 @@ def _multiline_stale(case):
 
 def _shutdown_hang(case):
     """shutdown_processor() waits for a live daemon that failed the alive probe without killing it."""
+    tail = case.get("tail", [])
     return (
         _is_atom(case, "deadlock")
         and case["atom"][1] == "waitpid"
-        and len(case.get("tail", [])) == 2
-        and case["tail"][0] == "> ALIVE"
-        and case["tail"][1].startswith("< ")
-        and case["tail"][1] != "< YEP_D"
+        and len(tail) >= 2
+        and tail[0] == "> ALIVE"  # the last thing Python wrote is the alive probe of shutdown_processor ...
+        and all(e.startswith("< ") for e in tail[1:])  # ... it read the answer(s) ...
+        and tail[1:] != ["< YEP_D"]  # ... which were not the single "yep!" that makes it send shutdown_daemon
     )
 
 
